@@ -74,7 +74,7 @@ fn adversarial_target() -> BoxedStrategy<usize> {
     .boxed()
 }
 
-fn mutation() -> BoxedStrategy<Mutation> {
+pub fn mutation_strategy() -> BoxedStrategy<Mutation> {
     (
         0u8..12,
         any::<u16>(),
@@ -367,7 +367,7 @@ impl Prop for C12 {
         };
         (
             machine(&mp),
-            proptest::collection::vec(mutation(), 0..=3),
+            proptest::collection::vec(mutation_strategy(), 0..=3),
             fw_frac(),
             fw_frac(),
             any::<u64>(),
